@@ -209,6 +209,7 @@ def run(ctx):
 
     frames(ctx, rule="R05.4")
     chunks(ctx)
+    krige_state(ctx)
     variants(ctx)
     return (
         "Decides the structural clauses of C05: (R05.1) kriging matrix and right-hand sides use the same row layout under the same guards, sizes and paddings agree; (R05.2) every off-diagonal block has its "
@@ -216,3 +217,29 @@ def run(ctx):
         "isometrized positions, drift rows use the same functions; (R05.4) coordinate frames of all sinks; (R05.5) chunks are disjoint contiguous slices, each chunk's results come from its own right-hand sides; "
         "kernel index structure field = c^T M v, var = v^T M v; (R05.7) the five variants forward their parameters unchanged. NOT decided: numerical equality with a direct solve, linearity/unbiasedness as values."
     )
+
+
+# ---------------------------------------------------------------------------------------- derived kriging state
+def krige_state(ctx, rule="R05.6"):
+    """_krige_pos and _krige_mat are recomputed from the current conditions AND the current model on every path of the
+    documented refresh set_condition() (the model may have been changed in place by the caller beforehand)."""
+    from .. import state
+    from ..state import Edge as E
+
+    prog = ctx.prog
+    ci = prog.cls(KB, "Krige")
+    edges = [
+        E("_krige_pos", "_cond_pos"), E("_krige_pos", "_model"),
+        E("_krige_mat", "_krige_pos"), E("_krige_mat", "_cond_err"), E("_krige_mat", "_cond_ext_drift"), E("_krige_mat", "_model"),
+    ]
+    entries = [("Krige.set_condition", ci.methods["set_condition"], ci)]
+    st = state.coherence(
+        ctx, rule, ci, edges, entries=entries, rel=KB,
+        mutating_calls={"self.model.fit_variogram": "_model", "self.normalizer.fit": "_normalizer"},
+        init_ver={"_model": "changed-before-call"},
+    )
+    ctx.floor(rule, "paths through set_condition", st["paths"], 50)
+    for f in ("_krige_pos", "_krige_mat", "_cond_pos", "_cond_err", "_cond_ext_drift"):
+        if f not in st["fields_written"]:
+            raise AnalysisError("anchor vanished: set_condition no longer writes %s" % f)
+    ctx.note(rule, "cond_err.setter and set_drift_functions change inputs of the kriging matrix without rebuilding it; the documented refresh is set_condition()")
